@@ -95,9 +95,9 @@ func (d Date) Fmt(format int) string {
 }
 
 type WDay struct {
-	Date                                   Date
+	Date                                    Date
 	Tmin, Tavg, Tmax, Precip, Rad, Wind, RH float64
-	Sun, Verd                              float64 // optional columns (NaN = column value is the none-sentinel)
+	Sun, Verd                               float64 // optional columns (NaN = column value is the none-sentinel)
 }
 
 type Measure struct {
@@ -125,12 +125,13 @@ type Project struct {
 	GH, GL    int       // polygon-file min/max groundwater
 	Irrigated bool      `json:"irrigated"`
 
-	Rot     []RotEntry `json:"rotation"`
-	Fert    []FertEv   `json:"fert"`
-	Irr     []IrrEv    `json:"irr"`
-	Til     []TilEv    `json:"til"`
-	Meas    []Measure  `json:"measure"`
-	GWSerie []GWPoint  `json:"gw_series,omitempty"`
+	Rot        []RotEntry `json:"rotation"`
+	RotForeign int        `json:"rotation_foreign_lines,omitempty"` // >0: lines of other fields before the first and after every k-th line of this field in the rotation file
+	Fert       []FertEv   `json:"fert"`
+	Irr        []IrrEv    `json:"irr"`
+	Til        []TilEv    `json:"til"`
+	Meas       []Measure  `json:"measure"`
+	GWSerie    []GWPoint  `json:"gw_series,omitempty"`
 
 	WeatherStart Date    `json:"weather_start"`
 	WeatherDays  int     `json:"weather_days"`
@@ -213,7 +214,7 @@ func (p *Project) GenWeather() {
 		rad := math.Max(0.5, 11+9.5*season+4*(r.F()-0.5)-math.Min(rain, 8)*0.4) // MJ m-2
 		wd := WDay{Date: d, Tmin: vh.RoundTo(tmin, 1), Tavg: vh.RoundTo(tavg, 1), Tmax: vh.RoundTo(tmax, 1),
 			Precip: vh.RoundTo(rain, 1), Rad: vh.RoundTo(rad, 2), Wind: vh.RoundTo(math.Max(0.1, c.WindMean*(0.3+1.4*r.F())), 1),
-			RH: vh.RoundTo(math.Min(99, math.Max(25, 78-12*season+15*(r.F()-0.5)+math.Min(rain, 10))), 0),
+			RH:  vh.RoundTo(math.Min(99, math.Max(25, 78-12*season+15*(r.F()-0.5)+math.Min(rain, 10))), 0),
 			Sun: math.NaN(), Verd: math.NaN()}
 		p.Weather = append(p.Weather, wd)
 	}
@@ -258,7 +259,9 @@ func (p *Project) Write(root, repo string) error {
 			return err
 		}
 	}
-	w := func(name, content string) error { return os.WriteFile(filepath.Join(dir, name), []byte(content), 0o644) }
+	w := func(name, content string) error {
+		return os.WriteFile(filepath.Join(dir, name), []byte(content), 0o644)
+	}
 	// config
 	p.Cfg["Dateformat"] = p.fmtName()
 	p.Cfg["DivideCentury"] = fmt.Sprint(p.Century)
@@ -320,7 +323,14 @@ func (p *Project) Write(root, repo string) error {
 		if i > 0 {
 			sow = r.Sow.Fmt(p.DateFmt)
 		}
+		if p.RotForeign > 0 && (i == 0 || i%p.RotForeign == 0) {
+			// a multi-field rotation file ordered by year: lines of other fields stand between the lines of this one
+			fmt.Fprintf(&b, "%-9s %-3s %s %s %03d %03d %d %s\n", "X"+p.Field, r.Crop, sow, r.Harvest.Fmt(p.DateFmt), r.Rex, r.Yld, r.AutOrg, r.Variety)
+		}
 		fmt.Fprintf(&b, "%-9s %-3s %s %s %03d %03d %d %s\n", p.Field, r.Crop, sow, r.Harvest.Fmt(p.DateFmt), r.Rex, r.Yld, r.AutOrg, r.Variety)
+		if p.RotForeign > 0 && i%p.RotForeign == 0 {
+			fmt.Fprintf(&b, "%-9s %-3s %s %s %03d %03d %d %s\n", "Y"+p.Field, r.Crop, sow, r.Harvest.Fmt(p.DateFmt), r.Rex, r.Yld, r.AutOrg, r.Variety)
+		}
 	}
 	if err := w("crop_"+p.Name+".txt", b.String()); err != nil {
 		return err
@@ -527,11 +537,11 @@ type memWriter struct {
 	b *bytes.Buffer
 }
 
-func (m *memWriter) Write(s string) (int, error)       { return m.b.WriteString(s) }
-func (m *memWriter) WriteBytes(s []byte) (int, error)  { return m.b.Write(s) }
-func (m *memWriter) WriteRune(r rune) (int, error)     { return m.b.WriteRune(r) }
-func (m *memWriter) WriteError(e error) (int, error)   { return m.b.WriteString(e.Error()) }
-func (m *memWriter) Close()                            {}
+func (m *memWriter) Write(s string) (int, error)      { return m.b.WriteString(s) }
+func (m *memWriter) WriteBytes(s []byte) (int, error) { return m.b.Write(s) }
+func (m *memWriter) WriteRune(r rune) (int, error)    { return m.b.WriteRune(r) }
+func (m *memWriter) WriteError(e error) (int, error)  { return m.b.WriteString(e.Error()) }
+func (m *memWriter) Close()                           {}
 func (o *MemOut) Gen(p string, app bool) (hermes.OutWriter, error) {
 	o.mu.Lock()
 	defer o.mu.Unlock()
